@@ -121,7 +121,26 @@ def call_builtin(it, name, pos, kw):
         parts = [it.concrete_items(p) for p in pos]
         if all(p is not None for p in parts):
             return list(zip(*parts))
-        raise PathAbort("zip over symbolic sequences", ctx.cur_line)
+        # symbolic-length operands: a symbolic list of tuples, as long as the shortest operand
+        def _len_item(p):
+            if isinstance(p, SymList):
+                return p.length, p.item
+            if isinstance(p, Arr) and p.ndim == 1:
+                q = N.snap(p)
+                return q.shape[0], (lambda i, q=q: q.fn(i))
+            cp = it.concrete_items(p)
+            if cp is not None:
+                def item(i, cp=cp):
+                    if isinstance(i, int):
+                        return cp[i]
+                    raise PathAbort("zip: concrete list indexed symbolically", ctx.cur_line)
+                return len(cp), item
+            raise PathAbort("zip over symbolic sequences", ctx.cur_line)
+        li = [_len_item(p) for p in pos]
+        length = li[0][0]
+        for l2, _ in li[1:]:
+            length = T.smin(length, l2)
+        return SymList(length, lambda i, li=li: tuple(f(i) for _, f in li), kind="list")
     if name == "reversed":
         items = it.concrete_items(pos[0])
         if items is not None:
@@ -382,6 +401,17 @@ def call_np(it, name, pos, kw):
         return N.np_sort(ctx, _arr(it, pos[0]))
     if name == "nonzero":
         return N.np_nonzero(ctx, _arr(it, pos[0]))
+    if name == "atleast_1d":
+        x = pos[0]
+        if isinstance(x, Opaque):
+            return x
+        if isinstance(x, Arr) and x.ndim >= 1:
+            return _arr(it, x)
+        if isinstance(x, Arr) and x.ndim == 0:
+            return Arr((1,), lambda i, f=x.fn: f(), x.dtype)
+        if T.is_scalar(x):
+            return Arr((1,), lambda i, x=x: x, T.sort_of(x))
+        raise PathAbort("np.atleast_1d of " + type(x).__name__, ctx.cur_line)
     if name == "flatnonzero":
         a = _arr(it, pos[0])
         if len(a.shape) != 1:
@@ -471,6 +501,67 @@ def call_np(it, name, pos, kw):
         return N.unravel_index(it, pos[0], pos[1], kw.get("order", "C"))
     if name == "insert":
         return N.np_insert(it, *pos, **kw)
+    if name == "sqrt":
+        ctx.dropped.add("np.sqrt: value abstracted to an uninterpreted real function SQRT (non-negative on non-negative arguments)")
+        SQRT = z3.Function("SQRT", z3.RealSort(), z3.RealSort())
+        f = lambda x: SQRT(T.tz(T.as_real(x)))
+        if isinstance(pos[0], Arr):
+            return N.elementwise(ctx, f, [pos[0]], "real")
+        return f(pos[0])
+    if name in ("random.uniform", "random.rand", "random.random"):
+        if name == "random.uniform":
+            lo = pos[0] if len(pos) > 0 else kw.get("low", 0.0)
+            hi = pos[1] if len(pos) > 1 else kw.get("high", 1.0)
+            size = pos[2] if len(pos) > 2 else kw.get("size")
+        else:
+            lo, hi = 0.0, 1.0
+            size = tuple(pos) if name == "random.rand" else (pos[0] if pos else kw.get("size"))
+        tag = "numpy:random.uniform/rand draw any reals in the half-open interval [low, high)"
+        if size is None:
+            u = T.fresh_real("u")
+            ctx.assume(T.And(T.le(T.as_real(lo), u), T.lt(u, T.as_real(hi))), trusted=tag)
+            return u
+        shp = N._shape_arg(ctx, size)
+        for d_ in shp:
+            if not isinstance(d_, int) and ctx.branch(T.lt(d_, 0), "np.random.uniform:negative-size"):
+                raise PyRaise("ValueError", "negative dimensions are not allowed", ctx.cur_line)
+        U = Arr.fresh("unif", shp, "real")
+        qs = [T.fresh_int("q") for _ in shp]
+        ctx.assume(T.ForAll(qs, z3.And(T.tz(T.le(T.as_real(lo), U.fn(*qs))), T.tz(T.lt(U.fn(*qs), T.as_real(hi)))), [U.fn(*qs)]), trusted=tag)
+        return U
+    if name == "random.choice":
+        n = pos[0]
+        size = pos[1] if len(pos) > 1 else kw.get("size")
+        if isinstance(n, Arr) or size is None:
+            raise PathAbort("np.random.choice form", ctx.cur_line)
+        shp = N._shape_arg(ctx, size)
+        if len(shp) != 1:
+            raise PathAbort("np.random.choice with n-d size", ctx.cur_line)
+        # NumPy: a must be positive unless no samples are taken; without replacement size <= a
+        if ctx.branch(T.And(T.le(n, 0), T.gt(shp[0], 0)), "np.random.choice:empty-population"):
+            raise PyRaise("ValueError", "a must be greater than 0 unless no samples are taken", ctx.cur_line)
+        rep = kw.get("replace", pos[2] if len(pos) > 2 else True)
+        if rep is not True:
+            if rep is False or ctx.branch(T.Not(T.truthy(rep)), "np.random.choice:without-replacement"):
+                if ctx.branch(T.gt(shp[0], n), "np.random.choice:sample-larger-than-population"):
+                    raise PyRaise("ValueError", "Cannot take a larger sample than population when replace is False", ctx.cur_line)
+        C = Arr.fresh("choice", shp, "int")
+        q = T.fresh_int("q")
+        ctx.assume(T.ForAll([q], z3.Implies(z3.And(0 <= q, T.tz(T.lt(q, shp[0]))), z3.And(0 <= C.fn(q), T.tz(T.lt(C.fn(q), n)))), [C.fn(q)]),
+                   trusted="numpy:random.choice(n, size) draws integers in [0, n)")
+        C.in_range_of = n
+        ctx.log_ghost("choice", C)
+        return C
+    if name == "random.poisson":
+        v = T.fresh_int("poisson")
+        ctx.assume(v >= 0, trusted="numpy:random.poisson draws a non-negative integer")
+        return v
+    if name in ("ceil", "floor") and isinstance(pos[0], Arr):
+        def rnd(x):
+            xr = T.tz(T.as_real(x))
+            fl = z3.ToInt(xr)
+            return z3.ToReal(fl) if name == "floor" else z3.ToReal(z3.If(z3.ToReal(fl) == xr, fl, fl + 1))
+        return N.elementwise(ctx, rnd, [pos[0]], "real")
     if name == "ceil" or name == "floor":
         x = pos[0]
         if isinstance(x, (int, float)):
@@ -619,4 +710,6 @@ def call_py_method(it, r, name, pos, kw):
             return r
     if isinstance(r, str):
         return Opaque("str")
+    if isinstance(r, SymList) and name == "copy":
+        return SymList(r.length, r.item, r.kind)
     raise PathAbort(f"method {name} of {type(r).__name__}", ctx.cur_line)
